@@ -202,7 +202,7 @@ class Sessions:
                     e.acked = True
                 elif f[2] == "pubrec":
                     e.acked = True
-                    if code >= 128: e.comp = True
+                    if code >= 128 and self.ver.get(f[1]) == 5: e.comp = True      # v3.1.1 has no reason codes: a plain PUBREC
                 else:
                     e.comp = True
                 acked.append(e)
